@@ -96,6 +96,8 @@ def midpoint_texts(ty, bits):
     """decimal strings right at, just below and just above the rounding midpoint between the pattern and its
     successor: where a parser that rounds twice (e.g. through a wider type) goes wrong."""
     from fractions import Fraction
+    if bits < 0 or bits + 1 >= (1 << (32 if ty == "f32" else 64)):
+        return []
     a, b = f_from_bits(ty, bits), f_from_bits(ty, bits + 1)
     if f_class(ty, bits) != "num" or f_class(ty, bits + 1) != "num" or a == 0.0 or b == 0.0:
         return []
